@@ -404,10 +404,10 @@ theorem stepWith_cases (f : Totp → Int → Int) (s : Totp) (a : Attempt) :
     (s.lastCheck + spacingNs ≤ a.now ∧ s.lockoutExp ≤ a.now ∧ s.lastSuccCounter = a.counter ∧
       stepWith f s a = ({ s with lastCheck := a.now }, .replay)) ∨
     (s.lastCheck + spacingNs ≤ a.now ∧ s.lockoutExp ≤ a.now ∧ s.lastSuccCounter ≠ a.counter ∧
-      a.correct = true ∧
-      stepWith f s a = (⟨a.now, 0, s.lastFail, a.now, a.counter⟩, .accepted)) ∨
+      fresh s a = true ∧
+      stepWith f s a = (⟨a.now, 0, s.lastFail, a.now, matchedOr a⟩, .accepted)) ∨
     (s.lastCheck + spacingNs ≤ a.now ∧ s.lockoutExp ≤ a.now ∧ s.lastSuccCounter ≠ a.counter ∧
-      a.correct = false ∧
+      fresh s a = false ∧
       stepWith f s a = (⟨a.now, fcNext s a.now, a.now, f s a.now, s.lastSuccCounter⟩, .rejected)) := by
   unfold stepWith
   by_cases h1 : s.lastCheck + spacingNs > a.now
@@ -419,11 +419,72 @@ theorem stepWith_cases (f : Totp → Int → Int) (s : Totp) (a : Attempt) :
       by_cases h3 : s.lastSuccCounter = a.counter
       · left; exact ⟨by omega, by omega, h3, by simp only [h1, h2, h3, if_true, if_false]⟩
       · right
-        by_cases h4 : a.correct = true
+        by_cases h4 : fresh s a = true
         · left; exact ⟨by omega, by omega, h3, h4, by simp only [h1, h2, h3, h4, if_true, if_false]⟩
         · right
           refine ⟨by omega, by omega, h3, by simpa using h4, ?_⟩
           simp only [h1, h2, h3, h4, if_false]
           rfl
+
+end KM.RateLimit
+
+namespace KM.RateLimit
+
+/-- `fresh`: the code belongs to a step later than the last accepted one -/
+theorem fresh_iff {s : Totp} {a : Attempt} :
+    fresh s a = true ↔ ∃ m, a.matched = some m ∧ s.lastSuccCounter < m := by
+  unfold fresh
+  cases h : a.matched with
+  | none => simp
+  | some m => simp
+
+theorem matchedOr_of_some {a : Attempt} {m : Int} (h : a.matched = some m) : matchedOr a = m := by
+  unfold matchedOr; rw [h]; rfl
+
+/-- the stored step never goes back -/
+theorem lastSucc_mono (f : Totp → Int → Int) (s : Totp) (a : Attempt) :
+    s.lastSuccCounter ≤ (stepWith f s a).1.lastSuccCounter := by
+  rcases stepWith_cases f s a with ⟨_, e⟩ | ⟨_, _, e⟩ | ⟨_, _, _, e⟩ | ⟨_, _, _, h4, e⟩ |
+      ⟨_, _, _, _, e⟩ <;> rw [e]
+  · exact Int.le_refl _
+  · exact Int.le_refl _
+  · exact Int.le_refl _
+  · obtain ⟨m, hm, hlt⟩ := fresh_iff.mp h4
+    show s.lastSuccCounter ≤ matchedOr a
+    rw [matchedOr_of_some hm]; omega
+  · exact Int.le_refl _
+
+/-- an accepted step stores the matched step, which is later than the one stored before -/
+theorem accepted_step {f : Totp → Int → Int} {s : Totp} {a : Attempt}
+    (h : (stepWith f s a).2 = .accepted) :
+    ∃ m, a.matched = some m ∧ s.lastSuccCounter < m ∧ (stepWith f s a).1.lastSuccCounter = m := by
+  rcases stepWith_cases f s a with ⟨_, e⟩ | ⟨_, _, e⟩ | ⟨_, _, _, e⟩ | ⟨_, _, _, h4, e⟩ |
+      ⟨_, _, _, _, e⟩ <;> rw [e] at h ⊢ <;> try (cases h; done)
+  obtain ⟨m, hm, hlt⟩ := fresh_iff.mp h4
+  exact ⟨m, hm, hlt, matchedOr_of_some hm⟩
+
+/-- every later acceptance of a user carries a step later than that user's stored one -/
+theorem trace_accept {U : Type} [DecidableEq U] (f : Totp → Int → Int)
+    (ops : List (U × Attempt)) : ∀ (m : U → Totp) (e : Event U),
+    e ∈ traceM (stepWith f) m ops → e.out = .accepted →
+    ∃ k, e.matched = some k ∧ (m e.user).lastSuccCounter < k := by
+  induction ops with
+  | nil => intro m e h; cases h
+  | cons op ops ih =>
+    intro m e h hacc
+    simp only [traceM, List.mem_cons] at h
+    rcases h with h | h
+    · subst h
+      obtain ⟨k, hk, hlt, _⟩ := accepted_step hacc
+      exact ⟨k, hk, hlt⟩
+    · obtain ⟨k, hk, hlt⟩ := ih _ e h hacc
+      refine ⟨k, hk, ?_⟩
+      simp only [stepM, upd] at hlt
+      split at hlt
+      · rename_i hu
+        have := lastSucc_mono f (m op.1) op.2
+        rw [hu]
+        omega
+      · exact hlt
 
 end KM.RateLimit
